@@ -1,4 +1,5 @@
 (* Props/C03.v — Every plan is internally consistent with the files it describes.  Statements only. *)
+From RN Require Import Model.ApplyModel Model.SimplePlan Proofs.SimplePlanP.   (* first: Model/Enhanced.v's e_start etc. must win below *)
 From RN Require Import Base.Bytes Model.StyleDef Model.Edits Model.Matcher Model.Hunks Model.Compound Model.Enhanced.
 From RN Require Import Proofs.EditsP Proofs.HunksP Proofs.EnhancedP1 Proofs.EnhancedP2.
 
@@ -99,3 +100,58 @@ Print Assumptions C03_enhanced_sorted_disjoint_all.
 Print Assumptions C03_enhanced_within_content.
 Print Assumptions C03_enhanced_classified.
 Print Assumptions C03_enhanced_empty_match.
+
+(* ---- THE SECOND PLANNER: scanner.rs::create_simple_plan / process_file_content behind `renamify replace`, literal mode
+   (Model/SimplePlan.v, tied hunk by hunk to the real planner by lib/simpleplan_difftest.py).  excl: the exclude-lines predicate
+   (an oracle); bat: -uuu.  For EVERY file content, pattern, replacement and predicate: ---- *)
+
+(* every hunk is what the plan says it is: the recorded text is the pattern and the file's bytes at [start, end), the span lies in
+   the file, line / byte column / char column are those of start, line_before is the line the match sits on (without its
+   terminator), line_after is that line with that one match replaced, the line is not excluded *)
+Theorem C03_simple_plan_hunks : forall excl p repl bat c h, p <> [] ->
+  In h (fst (SimplePlan.process_file_content excl p repl bat c)) -> hunk_spec excl p repl c h.
+Proof. exact simple_plan_now_hunks. Qed.
+
+(* hunks of a file are sorted by start and pairwise disjoint (overlapping occurrences are not reported: aa in aaa is one hunk) *)
+Theorem C03_simple_plan_sorted : forall excl p repl bat c,
+  sorted_disjoint 0 (fst (SimplePlan.process_file_content excl p repl bat c)) = true.
+Proof. exact simple_plan_now_sorted. Qed.
+
+(* the plan is consistent with the file in the sense of C03_consistent_applies, and the stats count what the plan holds *)
+Theorem C03_simple_plan_consistent : forall excl p repl bat c, p <> [] -> utf8_ok p = true ->
+  file_consistent false c (fst (SimplePlan.process_file_content excl p repl bat c)) = true.
+Proof. exact simple_plan_now_consistent. Qed.
+
+Theorem C03_simple_plan_stats : forall excl p repl bat files,
+  (p = [] -> create_simple_plan excl p repl bat files = None) /\
+  (p <> [] -> exists per_file st,
+     create_simple_plan excl p repl bat files = Some (per_file, st) /\
+     per_file = map (fun c => fst (SimplePlan.process_file_content excl p repl bat c)) files /\
+     st_files_scanned st = length files /\
+     total_ok (st_total st) per_file = true /\
+     files_with_ok (st_files_with st) per_file = true /\
+     st_by_variant st = [(p, st_total st)]).
+Proof. exact create_simple_plan_spec. Qed.
+
+(* applying the plan rewrites exactly the reported occurrences (the link to C02) *)
+Theorem C03_simple_plan_applies : forall excl p repl bat c,
+  p <> [] -> utf8_ok p = true -> head_ok repl = true -> head_ok c = true ->
+  wf_edits c (map edit_of_hunk (fst (SimplePlan.process_file_content excl p repl bat c))) = true /\
+  apply_edits_rev c (map edit_of_hunk (fst (SimplePlan.process_file_content excl p repl bat c)))
+    = Ok (spec_splice c (map edit_of_hunk (fst (SimplePlan.process_file_content excl p repl bat c)))).
+Proof. exact simple_plan_now_applies. Qed.
+
+(* THE CODE AS IT WAS (String::from_utf8_lossy, process_file_content_lossy) violated the first clause on files that are not valid
+   UTF-8: a span outside the file, and a recorded text that is not at its offsets - found while proving, reproduced on the real
+   planner, repaired by repo fix 0904d0d (such a file is now left out) *)
+Theorem C03_simple_plan_lossy_refuted : exists c p repl h,
+    p <> [] /\ utf8_ok p = true /\ In h (fst (process_file_content_lossy SimpleWitness.noex p repl false c)) /\
+    (length c < fh_end h)%nat.
+Proof. exact SimpleWitness.simple_plan_span_within_file_refuted. Qed.
+
+Print Assumptions C03_simple_plan_hunks.
+Print Assumptions C03_simple_plan_sorted.
+Print Assumptions C03_simple_plan_consistent.
+Print Assumptions C03_simple_plan_stats.
+Print Assumptions C03_simple_plan_applies.
+Print Assumptions C03_simple_plan_lossy_refuted.
